@@ -5,6 +5,7 @@ import (
 	"flag"
 	"fmt"
 	"math"
+	"sort"
 
 	"github.com/yaricom/goNEAT/v4/experiment"
 	"github.com/yaricom/goNEAT/v4/neat"
@@ -169,68 +170,108 @@ func checkExperiment(sc *statsCase, c *checker) int {
 	}
 	a := sc.Agg
 	nt := float64(a.Trials)
-	c.call("experiment aggregates", func() {
-		c.eq("TrialsSolved", float64(e.TrialsSolved()), float64(a.SolvedCount))
-		if e.Solved() != a.Solved {
-			c.bad += fmt.Sprintf("Solved = %v, definition gives %v; ", e.Solved(), a.Solved)
-		}
-		c.near("SuccessRate", e.SuccessRate(), float64(a.SolvedCount)/nt)
-		c.near("AvgGenerationsPerTrial", e.AvgGenerationsPerTrial(), float64(a.GensSum)/nt)
-		n1, n2, n3, n4 := e.AvgWinnerStatistics()
-		for k, got := range []float64{n1, n2, n3, n4} {
-			want := -1.0
-			if a.SolvedCount > 0 {
-				want = float64(a.WinSum[k]) / float64(a.SolvedCount)
+	phase := ""
+	check := func() {
+		c.call("experiment aggregates"+phase, func() {
+			c.eq("TrialsSolved", float64(e.TrialsSolved()), float64(a.SolvedCount))
+			if e.Solved() != a.Solved {
+				c.bad += fmt.Sprintf("Solved = %v, definition gives %v; ", e.Solved(), a.Solved)
 			}
-			c.near(fmt.Sprintf("AvgWinnerStatistics[%d]", k), got, want)
-		}
-		bf, ba, bc, ad, ep := e.BestFitness(), e.BestSpeciesAge(), e.BestComplexity(), e.AvgDiversity(), e.EpochsPerTrial()
-		for i, ta := range a.PerTrial {
-			c.eq(fmt.Sprintf("EpochsPerTrial[%d]", i), ep[i], float64(ta.Gens))
-			c.eq(fmt.Sprintf("BestFitness[%d]", i), bf[i], float64(ta.BestFit))
-			c.in(fmt.Sprintf("BestSpeciesAge[%d]", i), ba[i], ta.BestAge)
-			c.in(fmt.Sprintf("BestComplexity[%d]", i), bc[i], ta.BestCplx)
-			wantDiv := math.NaN()
-			if ta.Gens > 0 {
-				wantDiv = float64(ta.DivSum) / float64(ta.Gens)
-			}
-			c.near(fmt.Sprintf("AvgDiversity[%d]", i), ad[i], wantDiv)
-		}
-	})
-	c.call("trial aggregates", func() {
-		for i, ta := range a.PerTrial {
-			t := &e.Trials[i]
-			if t.Solved() != ta.Solved {
-				c.bad += fmt.Sprintf("trial %d Solved = %v, definition gives %v; ", i, t.Solved(), ta.Solved)
-			}
-			cmp := func(name string, got experiment.Floats, want []int) {
-				if len(got) != len(want) {
-					c.bad += fmt.Sprintf("trial %d %s has %d entries, want %d; ", i, name, len(got), len(want))
-					return
+			c.near("SuccessRate", e.SuccessRate(), float64(a.SolvedCount)/nt)
+			c.near("AvgGenerationsPerTrial", e.AvgGenerationsPerTrial(), float64(a.GensSum)/nt)
+			n1, n2, n3, n4 := e.AvgWinnerStatistics()
+			for k, got := range []float64{n1, n2, n3, n4} {
+				want := -1.0
+				if a.SolvedCount > 0 {
+					want = float64(a.WinSum[k]) / float64(a.SolvedCount)
 				}
-				for j := range want {
-					c.eq(fmt.Sprintf("trial %d %s[%d]", i, name, j), got[j], float64(want[j]))
+				c.near(fmt.Sprintf("AvgWinnerStatistics[%d]", k), got, want)
+			}
+			bf, ba, bc, ad, ep := e.BestFitness(), e.BestSpeciesAge(), e.BestComplexity(), e.AvgDiversity(), e.EpochsPerTrial()
+			for i, ta := range a.PerTrial {
+				c.eq(fmt.Sprintf("EpochsPerTrial[%d]", i), ep[i], float64(ta.Gens))
+				c.eq(fmt.Sprintf("BestFitness[%d]", i), bf[i], float64(ta.BestFit))
+				c.in(fmt.Sprintf("BestSpeciesAge[%d]", i), ba[i], ta.BestAge)
+				c.in(fmt.Sprintf("BestComplexity[%d]", i), bc[i], ta.BestCplx)
+				wantDiv := math.NaN()
+				if ta.Gens > 0 {
+					wantDiv = float64(ta.DivSum) / float64(ta.Gens)
+				}
+				c.near(fmt.Sprintf("AvgDiversity[%d]", i), ad[i], wantDiv)
+			}
+		})
+		c.call("trial aggregates", func() {
+			for i, ta := range a.PerTrial {
+				t := &e.Trials[i]
+				if t.Solved() != ta.Solved {
+					c.bad += fmt.Sprintf("trial %d Solved = %v, definition gives %v; ", i, t.Solved(), ta.Solved)
+				}
+				cmp := func(name string, got experiment.Floats, want []int) {
+					if len(got) != len(want) {
+						c.bad += fmt.Sprintf("trial %d %s has %d entries, want %d; ", i, name, len(got), len(want))
+						return
+					}
+					for j := range want {
+						c.eq(fmt.Sprintf("trial %d %s[%d]", i, name, j), got[j], float64(want[j]))
+					}
+				}
+				cmp("ChampionsFitness", t.ChampionsFitness(), ta.ChampFit)
+				cmp("ChampionSpeciesAges", t.ChampionSpeciesAges(), ta.ChampAge)
+				cmp("ChampionsComplexities", t.ChampionsComplexities(), ta.ChampCplx)
+				cmp("Diversity", t.Diversity(), ta.Diversity)
+				f, ag, cx := t.Average()
+				cmp("Average.fitness", f, ta.ChampFit)
+				cmp("Average.age", ag, ta.ChampAge)
+				cmp("Average.complexity", cx, ta.ChampCplx)
+				w1, w2, w3, w4 := t.WinnerStatistics()
+				for k, got := range []int{w1, w2, w3, w4} {
+					c.eq(fmt.Sprintf("trial %d WinnerStatistics[%d]", i, k), float64(got), float64(ta.Winner[k]))
+				}
+				if org, ok := t.BestOrganism(false); ok != (ta.Gens > 0) {
+					c.bad += fmt.Sprintf("trial %d BestOrganism found=%v; ", i, ok)
+				} else if ok {
+					c.eq(fmt.Sprintf("trial %d BestOrganism.Fitness", i), org.Fitness, float64(ta.BestFit))
 				}
 			}
-			cmp("ChampionsFitness", t.ChampionsFitness(), ta.ChampFit)
-			cmp("ChampionSpeciesAges", t.ChampionSpeciesAges(), ta.ChampAge)
-			cmp("ChampionsComplexities", t.ChampionsComplexities(), ta.ChampCplx)
-			cmp("Diversity", t.Diversity(), ta.Diversity)
-			f, ag, cx := t.Average()
-			cmp("Average.fitness", f, ta.ChampFit)
-			cmp("Average.age", ag, ta.ChampAge)
-			cmp("Average.complexity", cx, ta.ChampCplx)
-			w1, w2, w3, w4 := t.WinnerStatistics()
-			for k, got := range []int{w1, w2, w3, w4} {
-				c.eq(fmt.Sprintf("trial %d WinnerStatistics[%d]", i, k), float64(got), float64(ta.Winner[k]))
-			}
-			if org, ok := t.BestOrganism(false); ok != (ta.Gens > 0) {
-				c.bad += fmt.Sprintf("trial %d BestOrganism found=%v; ", i, ok)
-			} else if ok {
-				c.eq(fmt.Sprintf("trial %d BestOrganism.Fitness", i), org.Fitness, float64(ta.BestFit))
+		})
+	}
+	check()
+	// The aggregates are functions of the recorded generations, not of earlier calls: when every trial has at most one
+	// solved generation (so that "the winner" does not depend on the order) each trial's generations are put in the
+	// opposite order with the library's own sort order (Generations.Less: time, then id) and everything is asked again
+	// (Stats.tla, ExperPermutationInvariant).
+	single := true
+	for _, t := range sc.Trials {
+		n := 0
+		for _, g := range t {
+			if g.Solved {
+				n++
 			}
 		}
-	})
+		single = single && n <= 1
+	}
+	if single && c.bad == "" {
+		rev := func(xs []int) {
+			for i, j := 0, len(xs)-1; i < j; i, j = i+1, j-1 {
+				xs[i], xs[j] = xs[j], xs[i]
+			}
+		}
+		for i := range e.Trials {
+			sort.Sort(sort.Reverse(e.Trials[i].Generations))
+			ta := &a.PerTrial[i]
+			rev(ta.ChampFit)
+			rev(ta.ChampAge)
+			rev(ta.ChampCplx)
+			rev(ta.Diversity)
+		}
+		phase = " after sorting every trial's generations in descending order"
+		before := c.bad
+		check()
+		if c.bad != before {
+			c.bad = before + "[asked again" + phase + "] " + c.bad[len(before):]
+		}
+		return 2 * (12 + 10*len(a.PerTrial))
+	}
 	return 12 + 10*len(a.PerTrial)
 }
 
